@@ -100,6 +100,8 @@ def apply(w, wn, h):
         wn.add_control(k, C.Control(cond, act))
     elif op == "remove_node":
         wn.remove_node(a[0])
+    elif op == "remove_node_with_controls":
+        wn.remove_node(a[0], with_control=True)
     elif op == "remove_link":
         wn.remove_link(a[0])
     elif op == "remove_pattern":
